@@ -53,7 +53,7 @@ PROPS = {
     'C04': dict(
         title='Adapter lookup returns the most specific applicable registration',
         contracts=['C04_lookup', 'C04_extendors'], falsifier='C04', modes=['py', 'c'], level='proof',
-        only={'C04_lookup': ['adapter.py:_lookup', 'adapter.py:AdapterLookupBase._uncached_lookup'],
+        only={'C04_lookup': ['adapter.py:_lookup', 'adapter.py:AdapterLookupBase._uncached_lookup', 'adapter.py:AdapterLookupBase._subscribe'],
               'C04_extendors': ['adapter.py:AdapterLookupBase.add_extendor', 'adapter.py:AdapterLookupBase.remove_extendor']},
         level_text='_lookup (the nested first-match search, recursion used through its own contract) and '
                    'AdapterLookupBase._uncached_lookup (walk of the registry resolution order) are verified from their real '
@@ -71,10 +71,13 @@ PROPS = {
         title='subscriptions() returns every applicable subscriber, with multiplicity, in order',
         contracts=['C04_lookup', 'C09_registry', 'C04_extendors'], falsifier='C07', modes=['py', 'c'], level='other',
         cfun=['C05_c'], cfun_only={'C05_c': ['_subcache', '_subscriptions']},
-        level_text_extra=' The C _subscriptions (and _subcache) is verified from the clang AST against the cache contract of the Python twin: a cached answer is '
+        level_text_extra=' The registry walk is verified from the real body: AdapterLookupBase._uncached_subscriptions goes through the reversed resolution order '
+                         '(base registries first), each chain member contributes what _subscriptions appends for its subscriber tree of the right order '
+                         '(handlers: provided None), and the lookup object ends up subscribed to every required specification (_subscribe, verified: a '
+                         'specification remembered in _required is a subscribed one). The C _subscriptions (and _subcache) is verified from the clang AST against the cache contract of the Python twin: a cached answer is '
                          'returned without searching, otherwise the answer of the uncached search is returned and stored in the subscriptions cache of that '
                          'provided interface -- and in no other cache (contracts/C05_c.py).',
-        only={'C04_lookup': ['adapter.py:_subscriptions'],
+        only={'C04_lookup': ['adapter.py:_subscriptions', 'adapter.py:AdapterLookupBase._uncached_subscriptions', 'adapter.py:AdapterLookupBase._subscribe'],
               'C04_extendors': ['adapter.py:AdapterLookupBase.add_extendor', 'adapter.py:AdapterLookupBase.remove_extendor'],
               'C09_registry': ['adapter.py:BaseAdapterRegistry.subscribe', 'adapter.py:BaseAdapterRegistry.unsubscribe',
                                'adapter.py:BaseAdapterRegistry._addValueToLeaf', 'adapter.py:BaseAdapterRegistry._removeValueFromLeaf']},
@@ -91,11 +94,14 @@ PROPS = {
         contracts=['C04_lookup', 'C05_cache', 'C08_entry'], falsifier='C08', modes=['py', 'c'], level='other',
         cfun=['C05_c', 'C06_c'], cfun_only={'C05_c': ['_lookup', '_lookup1', '_adapter_hook', '_lookupAll', '_subscriptions'],
                                             'C06_c': ['VB_lookup', 'VB_lookup1', 'VB_adapter_hook', 'VB_queryAdapter', 'VB_lookupAll', 'VB_subscriptions']},
-        level_text_extra=' The C twins _lookup, _lookup1, _adapter_hook, _lookupAll, _subscriptions are verified from the clang AST against the SAME postconditions '
+        level_text_extra=' The uncached searches behind the entry points are verified from their real bodies: _uncached_lookup (nearest registry with an applicable '
+                         'registration), _uncached_lookupAll (reversed resolution order, so derived registries override base registries name by name) and '
+                         '_uncached_subscriptions (reversed resolution order, contributions concatenated). The C twins _lookup, _lookup1, _adapter_hook, _lookupAll, _subscriptions are verified from the clang AST against the SAME postconditions '
                          '(NULL name = empty name, NULL default = None, ValueError for a non-str name before anything is touched, _lookup1 = _lookup of the '
                          '1-tuple, the hook calls the factory found for providedBy(object) with the object underlying a super proxy), and the six VB_* entry '
                          'points are verified to consult the cache layer only after the generation snapshot was verified.',
-        only={'C04_lookup': ['adapter.py:_lookupAll']},
+        only={'C04_lookup': ['adapter.py:_lookupAll', 'adapter.py:AdapterLookupBase._uncached_lookupAll', 'adapter.py:AdapterLookupBase._uncached_subscriptions',
+                             'adapter.py:AdapterLookupBase._uncached_lookup']},
         level_text='Verified from the real bodies (Python reference): _lookupAll against the recursive override specification; '
                    'LookupBase.lookup returns the cached value or what the uncached search answers, None meaning the default by identity, '
                    'and raises ValueError for a non-string name before touching anything; lookup1(r, p, n) is specified by the very '
@@ -133,7 +139,9 @@ PROPS = {
         cfun=['C05_c', 'C06_c'],
         cfunctions=['_subcache', '_getcache', '_lookup', '_lookup1', '_adapter_hook', '_lookupAll', '_subscriptions'],
         creturns={'_subcache': 'borrowed', '_getcache': 'borrowed'},
-        only={'C04_lookup': ['adapter.py:AdapterLookupBase._uncached_lookup'],
+        only={'C04_lookup': ['adapter.py:AdapterLookupBase._uncached_lookup', 'adapter.py:AdapterLookupBase._uncached_lookupAll',
+                             'adapter.py:AdapterLookupBase._uncached_subscriptions', 'adapter.py:AdapterLookupBase._subscribe',
+                             'adapter.py:AdapterLookupBase.changed'],
               'C02_spec': ['interface.py:Specification.changed', 'interface.py:Specification.__setBases'],
               'C09_registry': ['adapter.py:LookupBase.changed', 'adapter.py:BaseAdapterRegistry.changed', 'adapter.py:AdapterRegistry.changed', 'adapter.py:BaseAdapterRegistry.register', 'adapter.py:BaseAdapterRegistry.unregister', 'adapter.py:BaseAdapterRegistry.subscribe', 'adapter.py:BaseAdapterRegistry.unsubscribe',
                                'adapter.py:BaseAdapterRegistry._setBases', 'adapter.py:BaseAdapterRegistry.__init__'],
@@ -176,7 +184,8 @@ PROPS = {
                          'empties the caches and is re-taken, failure is reported), verify_changed (snapshot = tuple(registry.ro)[1:], generations recorded '
                          'for exactly that order, a failed invalidation leaves no snapshot) and the six VB_* entry points (verification precedes every '
                          'use of the cache layer).',
-        only={'C04_lookup': ['adapter.py:AdapterLookupBase._uncached_lookup'],
+        only={'C04_lookup': ['adapter.py:AdapterLookupBase._uncached_lookup', 'adapter.py:AdapterLookupBase._uncached_lookupAll',
+                             'adapter.py:AdapterLookupBase._uncached_subscriptions'],
               'C09_registry': ['adapter.py:BaseAdapterRegistry.changed', 'adapter.py:AdapterRegistry.changed',
                                'adapter.py:BaseAdapterRegistry._setBases', 'adapter.py:AdapterRegistry._setBases',
                                'adapter.py:AdapterRegistry._addSubregistry', 'adapter.py:AdapterRegistry._removeSubregistry',
